@@ -235,6 +235,31 @@ func checkMicroGoal(rep *Report, i int, desc string, mk func() micro.Goal, st0 *
 			rep.violate(i, "earlier-answer-changed", desc, fmt.Sprintf("answer %d showed %s when it was returned and shows %s after the search went on", k, a.show, now))
 		}
 	}
+	// reading the answers (reification walks the caller's terms and the states' substitutions) is an observation too: it changes
+	// nothing that was handed out, and reading twice gives the same text
+	reifyAll := func(xs []snap7) string {
+		sts := make([]*micro.State, len(xs))
+		for k, a := range xs {
+			sts[k] = a.st
+		}
+		parts := []string{}
+		for _, t := range micro.MKReify(sts) {
+			parts = append(parts, t.String())
+		}
+		return strings.Join(parts, " ")
+	}
+	read1 := reifyAll(first)
+	if read2 := reifyAll(first); read2 != read1 {
+		rep.violate(i, "second-reading-differs", desc, fmt.Sprintf("MKReify of the answers gave %s the first time and %s the second time", read1, read2))
+	}
+	if now := snapMicro(st0); now != snap0 {
+		rep.violate(i, "input-state-changed", desc, fmt.Sprintf("the start state showed %s before the answers were reified and shows %s after", snap0, now))
+	}
+	for k, a := range first {
+		if now := snapMicro(a.st); now != a.show {
+			rep.violate(i, "earlier-answer-changed", desc, fmt.Sprintf("answer %d showed %s when it was returned and shows %s after the answers were reified", k, a.show, now))
+		}
+	}
 	// re-traversing the forced stream
 	second, _ := traverse7(ss, budget)
 	if showSnaps(second) != showSnaps(first) {
@@ -249,6 +274,8 @@ func checkMicroGoal(rep *Report, i int, desc string, mk func() micro.Goal, st0 *
 	again, _ := traverse7(goal(st0), budget)
 	if showSnaps(again) != showSnaps(first) {
 		rep.violate(i, "rerun-differs", desc, fmt.Sprintf("first run %s; second run on the same state %s", showSnaps(first), showSnaps(again)))
+	} else if r2 := reifyAll(again); r2 != read1 {
+		rep.violate(i, "rerun-differs", desc, fmt.Sprintf("the answers of the first run read %s; those of the second run on the same state read %s", read1, r2))
 	}
 	fresh, _ := traverse7(mk()(st0), budget)
 	if showSnaps(fresh) != showSnaps(first) {
@@ -299,6 +326,31 @@ func checkStreamValues(rep *Report, i int, desc string, g1, g2, g3 func() micro.
 	}
 	if now := show(kept); now != ref1 {
 		rep.violate(i, "stream-argument-changed", desc, fmt.Sprintf("a stream kept by the caller denoted %s before it was used in a disjunction and %s after", ref1, now))
+	}
+	// a stream one of whose suspensions faults when it is run: a caller that recovers and traverses again sees the same cells
+	// and the same fault at the same place - an interrupted step leaves nothing behind
+	faulty := micro.Mplus(g1()(st0), micro.Mplus(micro.Suspension(func() *micro.StreamOfStates { panic("goal faults while its cell is forced") }), g2()(st0)))
+	walk := func() (out string) {
+		defer func() {
+			if r := recover(); r != nil {
+				out += " FAULT"
+			}
+		}()
+		ss, n := faulty, 0
+		for ss != nil && n < budget+40 {
+			car, cdr := ss.CarCdr()
+			if car != nil {
+				out += " " + snapMicro(car)
+			} else {
+				out += " S"
+			}
+			ss = cdr
+			n++
+		}
+		return out
+	}
+	if w1, w2 := walk(), walk(); w1 != w2 {
+		rep.violate(i, "retraverse-differs", desc, fmt.Sprintf("a stream with a faulting suspension: first traversal%s; second traversal%s", w1, w2))
 	}
 }
 
